@@ -65,11 +65,6 @@ theorem redactT_cut (a c : List Tok) (h : WFL (a ++ .b LF :: c)) :
   rw [(redactAux_append_closed a (.b LF :: c)).1 ha]
   simp [redactAux]
 
-theorem stripT_append (a c : List Tok) : stripT (a ++ c) = stripT a ++ stripT c := by
-  induction a with
-  | nil => simp [stripT]
-  | cons t r ih => cases t <;> simp [stripT, ih]
-
 /-- `StripMarkers` commutes with cutting at a line feed (any token list). -/
 theorem stripT_cut (a c : List Tok) : stripT (a ++ .b LF :: c) = stripT a ++ .b LF :: stripT c := by
   rw [stripT_append]; simp [stripT]
